@@ -109,9 +109,11 @@ fn act(toks: &[&str], out: &mut Vec<String>) -> R<()> {
             }
             Ev::Upd => {
                 st.borrow_mut().got.clear();
+                // what the wrapper's terminal sees right now (the data the property says must be handed over unaltered)
+                let seen: Output<TerminalData, E> = <Terminal<E> as Getter<TerminalData, E>>::get(&*w.borrow());
                 let ret = wrapper.update();
                 let st = st.borrow();
-                format!("{};{};{}", ret.enc(), join_plus(&st.got), st.nupd)
+                format!("{};{};{};{}", ret.enc(), join_plus(&st.got), st.nupd, seen.enc())
             }
             _ => return Err(Bad),
         };
@@ -178,6 +180,16 @@ fn pid(toks: &[&str], out: &mut Vec<String>) -> R<()> {
     let w: Term = wrapper.get_terminal();
     let x: Term = leak_terminal();
     connect(w, x);
+    // the stand-alone reference: a real CommandPID over constant getters, fed what the terminal shows
+    let sa_time = rc_ref_cell_reference(t0);
+    let sa_state = rc_ref_cell_reference(ConstantGetter::<State, Time, E>::new(sa_time.clone(), state0));
+    let sa_command = rc_ref_cell_reference(ConstantGetter::<Command, Time, E>::new(sa_time.clone(), command0));
+    let sa_pid = rc_ref_cell_reference(streams::control::CommandPID::<ConstantGetter<State, Time, E>, E>::new(
+        sa_state.clone(),
+        command0,
+        kvals,
+    ));
+    sa_pid.borrow_mut().follow(to_dyn!(Getter<Command, E>, sa_command.clone()));
     for ev in events {
         if let Some(tok) = terminal_event(&ev, w, x) {
             out.push(tok);
@@ -194,8 +206,20 @@ fn pid(toks: &[&str], out: &mut Vec<String>) -> R<()> {
             }
             Ev::Upd => {
                 st.borrow_mut().got.clear();
+                let seen: Output<TerminalData, E> = <Terminal<E> as Getter<TerminalData, E>>::get(&*w.borrow());
+                if let Ok(Some(td)) = seen {
+                    *sa_time.borrow_mut() = td.value.time;
+                    if let Some(state) = td.value.state {
+                        let _ = sa_state.borrow_mut().set(state);
+                    }
+                    if let Some(command) = td.value.command {
+                        let _ = sa_command.borrow_mut().set(command);
+                    }
+                    let _ = sa_pid.borrow_mut().update();
+                }
                 let ret = wrapper.update();
-                format!("{};{}", ret.enc(), join_plus(&st.borrow().got))
+                let sa: Output<f32, E> = sa_pid.borrow().get();
+                format!("{};{};{}", ret.enc(), join_plus(&st.borrow().got), sa.enc())
             }
             // The motor was moved into the wrapper, which offers no access to it. `last` is the motor's real
             // `get_last_request()`, taken inside its `update()` right after following — the only place where the
